@@ -79,7 +79,28 @@ def sources(tier, seed, ctx):
         net = gen.random_netlist(rng, ni=ni, ng=rng.randint(1, 11 - ni), amax=4)
         outs = gen.pick_outputs(rng, net[0], len(net[1]))
         srcs.append({'k': rng.choice(['cnf', 'cnf', 'csat']), 'net': [net[0], net[1]], 'outs': outs, 'sel': None, 'variant': rng.choice(['plain', 'shuffle']), 'vs': rng.randrange(10**6)})
-    note.append(f'{min(take, len(nets))} universe + {nrand} random circuits')
+    # wide gates (the templates of the n-ary types are generated, not tabulated): arity 5..9, alone, below a negation, with a
+    # repeated operand, and two wide parities of opposite polarity over the same operands asserted together
+    for t in ['AND', 'OR', 'XOR', 'NAND', 'NOR', 'NXOR']:
+        for a in ([5, 6, 7, 9] if tier == 'quick' else [5, 6, 7, 8, 9, 10]):
+            ops = list(range(1, a + 1))
+            srcs.append({'k': 'cnf', 'net': [a, [[t, ops]]], 'outs': [a + 1], 'sel': None, 'variant': 'plain', 'vs': 0, 'family': 'wide'})
+            srcs.append({'k': 'cnf', 'net': [a, [[t, ops], ['NOT', [a + 1]]]], 'outs': [a + 2], 'sel': None, 'variant': 'plain', 'vs': 0, 'family': 'wide'})
+            if a <= 7:
+                rep = ops[:-1] + [ops[0]]
+                srcs.append({'k': 'cnf', 'net': [a - 1, [[t, rep], ['IFF', [a]]]], 'outs': [a + 1], 'sel': None, 'variant': 'plain', 'vs': 0, 'family': 'wide'})
+                srcs.append({'k': 'csat', 'net': [a, [[t, ops], [{'XOR': 'NXOR', 'NXOR': 'XOR', 'AND': 'NAND', 'NAND': 'AND', 'OR': 'NOR', 'NOR': 'OR'}[t], ops]]],
+                             'outs': [a + 1, a + 2], 'variant': 'plain', 'vs': 0, 'family': 'wide'})
+    # deep circuits: one path of more than a thousand gates (the interpreter's recursion limit), built in and against
+    # topological storage order; judged as a list of definitions (kind cnfdeep / csatdeep)
+    for depth in ([1200] if tier == 'quick' else [1200, 2500]):
+        for shape in ('not-xor', 'and-or'):
+            for storage in ('built', 'reversed'):
+                srcs.append({'k': 'cnfdeep', 'depth': depth, 'shape': shape, 'storage': storage, 'sel': None})
+        srcs.append({'k': 'cnfdeep', 'depth': depth, 'shape': 'not-xor', 'storage': 'built', 'sel': [1, 0]})
+        srcs.append({'k': 'csatdeep', 'depth': depth, 'shape': 'not-xor', 'storage': 'built'})
+        srcs.append({'k': 'csatdeep', 'depth': depth, 'shape': 'contradiction', 'storage': 'built'})
+    note.append(f'{min(take, len(nets))} universe + {nrand} random circuits; wide gates of arity 5..9; chains of 1200 gates')
     ctx['gen_note'] = '; '.join(note)
     return srcs
 
@@ -88,9 +109,72 @@ def probes():
     return [{'k': 'cnf', 'net': [3, [['XOR', [1, 2, 3]]]], 'outs': [4], 'sel': None, 'variant': 'plain', 'vs': 0, 'probe': 'tseytin-nary-xor'}]
 
 
+def build_deep(src):
+    """A chain of src['depth'] gates over two inputs; returns (circuit, witness order)."""
+    from cirbo.core.circuit import Circuit, gate as G
+
+    n, shape = src['depth'], src['shape']
+    gates = []
+    prev = 'x'
+    for k in range(n):
+        if shape == 'and-or':
+            t, ops = (('AND', (prev, 'y')) if k % 3 == 0 else ('OR', ('y', prev)) if k % 3 == 1 else ('NAND', (prev, prev)))
+        else:
+            t, ops = (('XOR', (prev, 'y')) if k % 2 else ('NOT', (prev,)))
+        gates.append((f'g{k}', t, ops))
+        prev = f'g{k}'
+    outs = [prev, f'g{n // 2}']
+    if shape == 'contradiction':
+        # the two ends of an even number of negations (every XOR reads y twice overall: g_last == x XOR stuff) asserted with
+        # the negation of the last gate: never satisfiable together
+        gates.append(('neg', 'NOT', (prev,)))
+        outs = [prev, 'neg']
+    order = ['x', 'y'] + [g[0] for g in gates]
+    if src.get('storage') == 'reversed':
+        text = 'INPUT(x)\nINPUT(y)\n' + '\n'.join(f'{l} = {t}({", ".join(o)})' for l, t, o in reversed(gates)) + '\n' + ''.join(f'OUTPUT({o})\n' for o in outs)
+        c = Circuit.from_bench_string(text)
+    else:
+        c = Circuit()
+        c.emplace_gate('x', G.INPUT)
+        c.emplace_gate('y', G.INPUT)
+        for l, t, o in gates:
+            c.emplace_gate(l, getattr(G, t), o)
+        c.set_outputs(outs)
+    return c, order
+
+
+def record_deep(src):
+    from cirbo.sat import is_circuit_satisfiable
+    from cirbo.sat.cnf import Cnf, tseytin_transformation
+
+    c, order = build_deep(src)
+    proj = project(c, users=False, blocks=False)
+    case = {'kind': src['k'], 'c': proj, 'order': order, 'exc': '', 'cnf': [], 'sel': list(range(len(proj['o']))), 'src': src}
+    try:
+        if src['k'] == 'cnfdeep':
+            if src.get('sel') is None:
+                cnf = Cnf.from_circuit(c).get_raw()
+            else:
+                cnf = tseytin_transformation(c, outputs=list(src['sel'])).get_raw()
+                case['sel'] = list(src['sel'])
+            case['cnf'] = [list(cl) for cl in cnf]
+        else:
+            case['answer'], case['model'] = False, []
+            case['cnf'] = [list(cl) for cl in Cnf.from_circuit(c).get_raw()]
+            res = is_circuit_satisfiable(c)
+            case['answer'] = bool(res.answer)
+            case['model'] = list(res.model) if res.model is not None else []
+    except Exception as e:
+        case['exc'] = type(e).__name__
+    return case
+
+
 def record(src):
     from cirbo.sat import is_circuit_satisfiable
     from cirbo.sat.cnf import Cnf, tseytin_transformation
+
+    if src['k'] in ('cnfdeep', 'csatdeep'):
+        return record_deep(src)
 
     c = build(src)
     proj = project(c)
